@@ -11,11 +11,20 @@ Property theorems (the rest are helper lemmas `aux_*`):
   instants_set                the model's defensive branch in `close` is unreachable
   empty_report_zero           no results: zeros
   min_sentinel_old_counterexample / min_after_zero_latency   the `Min == 0` defect before / after its fix
+Extension (text reporter lib/reporters.go:57-139, report loop report.go:136-166; model `Model/MetricsText.lean`):
+  round_within_unit, round_idempotent, round_small   `round`: multiple of the next unit, within half of it, no overflow
+  text_report_cells            every cell of the text report is the stated rendering of the stated field; status codes
+                               each once, in string order; error lines = error set
+  text_report_shows_metrics    the text report of any periodic/final report = text report of the reference
+  text_report_order_independent  … and does not depend on the order of the results (errors as a set)
+  periodic_reports_are_prefix_reports   every report the command's loop writes is the reference report of a prefix
+  final_report_independent_of_ticks / final_report_eq_ref   the final one is the same for every tick placement
 -/
 import Vegeta.Model.Metrics
 import Vegeta.Spec.Metrics
+import Vegeta.Model.MetricsText
 namespace Vegeta.Props.C10
-open Vegeta.Go Vegeta.Model.Metrics Vegeta.Spec.Metrics
+open Vegeta.Go Vegeta.Model.Metrics Vegeta.Spec.Metrics Vegeta.Model.MetricsText
 
 def accAll (a : Acc) (rs : List Result) : Acc := rs.foldl addAcc a
 
@@ -938,5 +947,360 @@ example : (ref sample).requests = 3 ∧ (ref sample).statusCodes = [(200, 2), (5
 
 example : report (close (run Metrics.init [.close, .add ⟨200, 5, 1, 0, 0, []⟩, .close, .close, .add ⟨200, 3, 9, 0, 0, []⟩])) =
     ref [⟨200, 5, 1, 0, 0, []⟩, ⟨200, 3, 9, 0, 0, []⟩] := by decide +kernel
+
+
+/-! ## Extension: the text reporter (lib/reporters.go) and the report command's loop (report.go) -/
+
+/-! ### `round` -/
+
+theorem aux_tmod_nonneg (d m : Int) (hd : 0 ≤ d) : Int.tmod d m = d % m := by
+  rw [Int.tmod_eq_emod]; simp [hd]
+
+/-- `Duration.Round` on a non-negative duration and one of the units of `round`: nearest multiple, halves up;
+the multiple above always fits when it is chosen. -/
+theorem aux_durRound_unit (d m : Int) (hd : 0 ≤ d) (hd' : d ≤ maxInt64)
+    (hm : m = 60000000000 ∨ m = 1000000000 ∨ m = 1000000 ∨ m = 1000 ∨ m = 1)
+    (hfit : m = 60000000000 ∨ d + m ≤ maxInt64) :
+    durRound d m = if 2 * (d % m) < m then d - d % m else d + m - d % m := by
+  unfold maxInt64 at hd' hfit
+  rcases hm with rfl | rfl | rfl | rfl | rfl <;>
+  · simp only [durRound, aux_tmod_nonneg _ _ hd, lessThanHalf, wrapU64, wrapS64, two64, two63, maxInt64, minInt64]
+    simp only [decide_eq_true_eq]
+    repeat' split
+    all_goals omega
+
+/-- the unit `round` rounds `d` to -/
+def roundUnit (d : Int) : Int :=
+  if d ≥ 3600000000000 then 60000000000 else if d ≥ 60000000000 then 1000000000 else if d ≥ 1000000000 then 1000000
+  else if d ≥ 1000000 then 1000 else 1
+
+theorem aux_round_eq (d : Int) (hd' : d ≤ maxInt64) :
+    round d = if d < 1000 then d else
+      if 2 * (d % roundUnit d) < roundUnit d then d - d % roundUnit d else d + roundUnit d - d % roundUnit d := by
+  unfold maxInt64 at hd'
+  simp only [round, durations, roundFrom, roundUnit]
+  by_cases h1 : d ≥ 3600000000000
+  · rw [if_pos h1, aux_durRound_unit d _ (by omega) (by unfold maxInt64; omega) (by simp) (by simp)]
+    simp only [h1, ↓reduceIte]; split <;> first | omega | rfl
+  · rw [if_neg h1]
+    by_cases h2 : d ≥ 60000000000
+    · rw [if_pos h2, aux_durRound_unit d _ (by omega) (by unfold maxInt64; omega) (by simp) (by unfold maxInt64; omega)]
+      simp only [h1, h2, ↓reduceIte]; split <;> first | omega | rfl
+    · rw [if_neg h2]
+      by_cases h3 : d ≥ 1000000000
+      · rw [if_pos h3, aux_durRound_unit d _ (by omega) (by unfold maxInt64; omega) (by simp) (by unfold maxInt64; omega)]
+        simp only [h1, h2, h3, ↓reduceIte]; split <;> first | omega | rfl
+      · rw [if_neg h3]
+        by_cases h4 : d ≥ 1000000
+        · rw [if_pos h4, aux_durRound_unit d _ (by omega) (by unfold maxInt64; omega) (by simp) (by unfold maxInt64; omega)]
+          simp only [h1, h2, h3, h4, ↓reduceIte]; split <;> first | omega | rfl
+        · rw [if_neg h4]
+          by_cases h5 : d ≥ 1000
+          · rw [if_pos h5, aux_durRound_unit d _ (by omega) (by unfold maxInt64; omega) (by simp) (by unfold maxInt64; omega)]
+            simp only [h1, h2, h3, h4, ↓reduceIte]; split <;> first | omega | rfl
+          · rw [if_neg h5]
+            have : d < 1000 := by omega
+            simp [this]
+
+/-- **`round` rounds to the next most precise unit**: the result is a multiple of that unit (minutes from one
+hour on, seconds from one minute on, … nothing below one microsecond) and differs from `d` by at most half
+of it; it never overflows. -/
+theorem round_within_unit (d : Int) (hd : d ≤ maxInt64) :
+    round d % roundUnit d = 0 ∧ 2 * (round d - d).natAbs ≤ roundUnit d ∧ round d ≤ maxInt64 ∧ (0 ≤ d → 0 ≤ round d) := by
+  rw [aux_round_eq d hd]
+  unfold maxInt64 at *
+  simp only [roundUnit]
+  repeat' split
+  all_goals omega
+
+/-- durations below one microsecond, zero and negative ones are shown as they are -/
+theorem round_small (d : Int) (h : d < 1000) : round d = d := by
+  rw [aux_round_eq d (by unfold maxInt64; omega)]; simp [h]
+
+/-- **Rounding twice changes nothing** (a rounded value that reaches the next coarser class, e.g.
+59.9996s → 1m0s, is already a multiple of that class's unit). -/
+theorem round_idempotent (d : Int) (hd : d ≤ maxInt64) : round (round d) = round d := by
+  have h := round_within_unit d hd
+  rw [aux_round_eq (round d) h.2.2.1]
+  generalize round d = e at h ⊢
+  obtain ⟨h1, h2, h3, h4⟩ := h
+  unfold maxInt64 at *
+  simp only [roundUnit] at h1 h2 ⊢
+  repeat' split
+  all_goals (repeat' split at h1)
+  all_goals omega
+
+
+
+/-! ### text report: status codes in string order -/
+
+theorem aux_lexLt_iff : ∀ (a b : Bytes), lexLt a b = true ↔ a < b := by
+  intro a
+  induction a with
+  | nil => intro b; cases b <;> simp [lexLt]
+  | cons x xs ih =>
+    intro b
+    cases b with
+    | nil => simp [lexLt]
+    | cons y ys =>
+      simp only [lexLt, List.cons_lt_cons_iff]
+      by_cases h1 : x < y
+      · simp [h1]
+      · by_cases h2 : y < x
+        · simp [h1, h2]; omega
+        · have : x = y := by omega
+          simp [this, ih]
+
+/-- the key `sort.Strings` compares: the decimal text of the status code -/
+def codeText (p : Nat × Nat) : Bytes := Duration.fmtNat p.1
+
+/-- non-decreasing in the byte-wise lexicographic order of the code texts -/
+def TextSorted (l : List (Nat × Nat)) : Prop := List.Pairwise (fun p q => codeText p ≤ codeText q) l
+
+theorem aux_insertByText_perm (p : Nat × Nat) (l : List (Nat × Nat)) : (insertByText p l).Perm (p :: l) := by
+  induction l with
+  | nil => exact List.Perm.refl _
+  | cons q t ih =>
+    simp only [insertByText]
+    split
+    · exact (List.Perm.cons q ih).trans (List.Perm.swap p q t)
+    · exact List.Perm.refl _
+
+theorem aux_insertByText_sorted (p : Nat × Nat) (l : List (Nat × Nat)) (h : TextSorted l) : TextSorted (insertByText p l) := by
+  induction l with
+  | nil => simp [insertByText, TextSorted]
+  | cons q t ih =>
+    simp only [insertByText]
+    have hq := List.pairwise_cons.mp h
+    split
+    · rename_i hlt
+      have hlt' : codeText q < codeText p := (aux_lexLt_iff _ _).mp hlt
+      refine List.pairwise_cons.mpr ⟨?_, ih hq.2⟩
+      intro a ha
+      rcases List.mem_cons.mp ((aux_insertByText_perm p t).mem_iff.mp ha) with rfl | ha
+      · exact List.le_of_lt hlt'
+      · exact hq.1 a ha
+    · rename_i hlt
+      have hle : codeText p ≤ codeText q := List.not_lt.mp (fun hh => hlt ((aux_lexLt_iff _ _).mpr hh))
+      refine List.pairwise_cons.mpr ⟨?_, h⟩
+      intro a ha
+      rcases List.mem_cons.mp ha with rfl | ha
+      · exact hle
+      · exact List.le_trans hle (hq.1 a ha)
+
+theorem aux_sortByText (l : List (Nat × Nat)) : (sortByText l).Perm l ∧ TextSorted (sortByText l) := by
+  induction l with
+  | nil => exact ⟨List.Perm.refl _, List.Pairwise.nil⟩
+  | cons p t ih =>
+    exact ⟨(aux_insertByText_perm p _).trans (List.Perm.cons p ih.1), aux_insertByText_sorted p _ ih.2⟩
+
+/-! ### text report -/
+
+/-- **The text report shows the metrics.** For the closed metrics `r` (and the percentiles handed in):
+seven rows, in order, each cell the stated rendering of the stated field — request count `%d`, rate and
+throughput `%.2f`; total, attack and wait duration through `round` and `Duration.String`; minimum, mean,
+the four percentiles and maximum latency likewise; byte totals `%d` and means `%.2f`; success ratio
+times 100 `%.2f%%`; then the status codes — each code of the histogram exactly once with its count
+(`cs` is a permutation of the histogram), in the byte-wise order of their decimal texts, rendered
+`code:count␣␣`; and after "Error Set:" exactly the error set, in order of insertion. -/
+theorem text_report_cells (r : Report) (p50 p90 p95 p99 : Int) :
+    ∃ cs : List (Nat × Nat), cs.Perm r.statusCodes ∧ TextSorted cs ∧
+    (textReport r p50 p90 p95 p99).rows =
+      [ (lRequests, hRequests, joinSep [Duration.fmtNat r.requests, fmtFixed2 r.rate, fmtFixed2 r.throughput]),
+        (lDuration, hDuration, joinSep [Duration.toString (round (wrapS64 (r.duration + r.wait))),
+            Duration.toString (round r.duration), Duration.toString (round r.wait)]),
+        (lLatencies, hLatencies, joinSep [Duration.toString (round r.latMin), Duration.toString (round r.latMean),
+            Duration.toString (round p50), Duration.toString (round p90), Duration.toString (round p95),
+            Duration.toString (round p99), Duration.toString (round r.latMax)]),
+        (lBytesIn, hBytes, joinSep [Duration.fmtNat r.bytesInTotal, fmtFixed2 r.bytesInMean]),
+        (lBytesOut, hBytes, joinSep [Duration.fmtNat r.bytesOutTotal, fmtFixed2 r.bytesOutMean]),
+        (lSuccess, hSuccess, fmtFixed2 (F64.mul r.successRatio (F64.ofNat 100)) ++ [37]),
+        (lCodes, hCodes, (cs.map codeCell).flatten) ] ∧
+    (textReport r p50 p90 p95 p99).errors = r.errors :=
+  ⟨sortByText r.statusCodes, (aux_sortByText _).1, (aux_sortByText _).2, rfl, rfl⟩
+
+/-- **The text report of every (periodic or final) report shows the reference values**: after any sequence
+of `Add` and `Close` calls in the domain, the text report of the closed metrics is the text report of the
+reference computation over the results added so far. -/
+theorem text_report_shows_metrics (ops : List Op) (hd : Domain (adds ops)) (p50 p90 p95 p99 : Int) :
+    textReport (report (close (run Metrics.init ops))) p50 p90 p95 p99 = textReport (ref (adds ops)) p50 p90 p95 p99 := by
+  rw [incremental_report_eq_ref ops hd]
+
+/-- **The text report does not depend on the order of the results**, up to the order of the error lines
+(which are the same set of texts). -/
+theorem text_report_order_independent (rs1 rs2 : List Result) (h : rs1.Perm rs2) (p50 p90 p95 p99 : Int) :
+    (textReport (ref rs1) p50 p90 p95 p99).rows = (textReport (ref rs2) p50 p90 p95 p99).rows ∧
+    (textReport (ref rs1) p50 p90 p95 p99).errors.Perm (textReport (ref rs2) p50 p90 p95 p99).errors := by
+  obtain ⟨h1, h2⟩ := ref_perm rs1 rs2 h
+  refine ⟨?_, h2⟩
+  have e1 : (textReport (ref rs1) p50 p90 p95 p99).rows = (textReport (withoutErrors (ref rs1)) p50 p90 p95 p99).rows := rfl
+  have e2 : (textReport (ref rs2) p50 p90 p95 p99).rows = (textReport (withoutErrors (ref rs2)) p50 p90 p95 p99).rows := rfl
+  rw [e1, e2, h1]
+
+example : fmtFixed2 (F64.ofDecimal 125 (-3)) = [48, 46, 49, 50] ∧ fmtFixed2 (F64.ofDecimal 2675 (-3)) = [50, 46, 54, 55] ∧
+    fmtFixed2 (F64.ofDecimal 5 (-3)) = [48, 46, 48, 49] ∧ fmtFixed2 (F64.neg (F64.ofDecimal 1 (-3))) = [45, 48, 46, 48, 48] := by
+  decide +kernel
+
+example : round 59999999999 = 60000000000 ∧ round 1500 = 1500 ∧ round 3629999999999 = 3600000000000 ∧
+    round 3630000000000 = 3660000000000 ∧ round (-5) = -5 := by decide +kernel
+
+example : sortByText [(200, 3), (1000, 1), (99, 2)] = [(1000, 1), (200, 3), (99, 2)] := by decide +kernel
+
+/-! ### the report command's loop -/
+
+theorem aux_adds_append (a b : List Op) : adds (a ++ b) = adds a ++ adds b := by
+  induction a with
+  | nil => rfl
+  | cons op t ih => cases op <;> simp [adds, ih]
+
+theorem aux_run_snoc (m : Metrics) (ops : List Op) (op : Op) : run m (ops ++ [op]) = step (run m ops) op := by
+  simp [run, List.foldl_append]
+
+theorem aux_sumInt_append (a b : List Int) : sumInt (a ++ b) = sumInt a + sumInt b := by
+  induction a with
+  | nil => simp [sumInt]
+  | cons x t ih => simp only [List.cons_append, sumInt, ih]; omega
+
+theorem aux_sumNat_append (a b : List Nat) : sumNat (a ++ b) = sumNat a + sumNat b := by
+  induction a with
+  | nil => simp [sumNat]
+  | cons x t ih => simp only [List.cons_append, sumNat, ih]; omega
+
+/-- the domain is closed under prefixes -/
+theorem aux_domain_prefix (p q : List Result) (hd : Domain (p ++ q)) : Domain p :=
+  { ts_nonneg := fun r hr => hd.ts_nonneg r (by simp [hr])
+    lat_nonneg := fun r hr => hd.lat_nonneg r (by simp [hr])
+    end_fits := fun r hr => hd.end_fits r (by simp [hr])
+    lat_sum := by
+      have h := hd.lat_sum
+      rw [List.map_append, aux_sumInt_append] at h
+      have := aux_sumInt_nonneg (q.map (·.latency)) (by
+        intro x hx; obtain ⟨r, hr, rfl⟩ := List.mem_map.mp hx; exact hd.lat_nonneg r (by simp [hr]))
+      omega
+    in_sum := by have h := hd.in_sum; rw [List.map_append, aux_sumNat_append] at h; omega
+    out_sum := by have h := hd.out_sum; rw [List.map_append, aux_sumNat_append] at h; omega }
+
+/-- loop invariant: the metrics are the result of `Add`/`Close` calls whose added results are exactly the
+records decoded so far, and every report written is the reference report of a prefix of the input -/
+def LoopInv (rs : List Result) (s : Loop) : Prop :=
+  ∃ ops, s.m = run Metrics.init ops ∧ adds ops ++ s.input = rs ∧
+    ∀ rep ∈ s.out, ∃ k, k ≤ rs.length ∧ rep = ref (rs.take k)
+
+theorem aux_writeReport_inv (rs : List Result) (hd : Domain rs) (s : Loop) (h : LoopInv rs s) : LoopInv rs (writeReport s) := by
+  obtain ⟨ops, hm, hin, hout⟩ := h
+  refine ⟨ops ++ [.close], ?_, ?_, ?_⟩
+  · simp only [writeReport, aux_run_snoc, step, hm]
+  · simp only [writeReport, aux_adds_append, adds, List.append_nil]; exact hin
+  · intro rep hrep
+    simp only [writeReport, List.mem_append, List.mem_singleton] at hrep
+    rcases hrep with hrep | hrep
+    · exact hout rep hrep
+    · refine ⟨(adds ops).length, ?_, ?_⟩
+      · rw [← hin]; simp
+      · rw [hrep, hm, incremental_report_eq_ref ops (aux_domain_prefix _ s.input (by rw [hin]; exact hd))]
+        congr 1
+        rw [← hin, List.take_left]
+
+theorem aux_loopStep_inv (rs : List Result) (hd : Domain rs) (s : Loop) (e : Ev) (h : LoopInv rs s) : LoopInv rs (loopStep s e) := by
+  unfold loopStep
+  split
+  · exact h
+  · cases e with
+    | interrupt => exact aux_writeReport_inv rs hd s h
+    | tick => exact aux_writeReport_inv rs hd s h
+    | decode =>
+      simp only []
+      split
+      · exact aux_writeReport_inv rs hd s h
+      · rename_i r rest hinput
+        obtain ⟨ops, hm, hin, hout⟩ := h
+        refine ⟨ops ++ [.add r], ?_, ?_, hout⟩
+        · simp only [aux_run_snoc, step, hm]
+        · simp only [aux_adds_append, adds, List.append_assoc, List.singleton_append]
+          rw [← hinput]; exact hin
+
+theorem aux_loopRun_inv (rs : List Result) (hd : Domain rs) (evs : List Ev) : ∀ s, LoopInv rs s → LoopInv rs (evs.foldl loopStep s) := by
+  induction evs with
+  | nil => intro s h; exact h
+  | cons e t ih => intro s h; exact ih _ (aux_loopStep_inv rs hd s e h)
+
+/-- **Periodic reports are prefix reports**: whatever the interleaving of ticks, decoded records and an
+interrupt, every report the loop writes — periodic or final — is the reference report over a prefix of
+the input (the records read so far). -/
+theorem periodic_reports_are_prefix_reports (rs : List Result) (hd : Domain rs) (evs : List Ev) :
+    ∀ rep ∈ (loopRun rs evs).out, ∃ k, k ≤ rs.length ∧ rep = ref (rs.take k) := by
+  obtain ⟨_, _, _, h⟩ := aux_loopRun_inv rs hd evs (Loop.start rs)
+    ⟨[], rfl, by simp [Loop.start, adds], by intro rep hrep; simp [Loop.start] at hrep⟩
+  exact h
+
+/-- invariant for runs without an interrupt: once the loop is done, all input was read and the last report
+written is that of the final `Close` -/
+def FinalInv (rs : List Result) (s : Loop) : Prop :=
+  ∃ ops, adds ops ++ s.input = rs ∧
+    (s.done = false → s.m = run Metrics.init ops) ∧
+    (s.done = true → s.input = [] ∧ s.m = close (run Metrics.init ops) ∧ s.out.getLast? = some (report s.m))
+
+theorem aux_loopStep_final (rs : List Result) (s : Loop) (e : Ev) (he : e ≠ .interrupt) (h : FinalInv rs s) :
+    FinalInv rs (loopStep s e) := by
+  unfold loopStep
+  split
+  · exact h
+  · rename_i hdone
+    have hdone' : s.done = false := by simpa using hdone
+    obtain ⟨ops, hin, hm, _⟩ := h
+    have hm' := hm hdone'
+    cases e with
+    | interrupt => exact absurd rfl he
+    | tick =>
+      refine ⟨ops ++ [.close], ?_, ?_, ?_⟩
+      · simp only [writeReport, aux_adds_append, adds, List.append_nil]; exact hin
+      · intro _; simp only [writeReport, aux_run_snoc, step, hm']
+      · intro hd; simp [writeReport, hdone'] at hd
+    | decode =>
+      simp only []
+      split
+      · rename_i hinput
+        refine ⟨ops, ?_, ?_, ?_⟩
+        · simp only [writeReport]; exact hin
+        · intro hd; simp at hd
+        · intro _; exact ⟨by simp only [writeReport]; exact hinput, by simp only [writeReport, hm'], by simp [writeReport]⟩
+      · rename_i r rest hinput
+        refine ⟨ops ++ [.add r], ?_, ?_, ?_⟩
+        · simp only [aux_adds_append, adds, List.append_assoc, List.singleton_append]; rw [← hinput]; exact hin
+        · intro _; simp only [aux_run_snoc, step, hm']
+        · intro hd; simp [hdone'] at hd
+
+theorem aux_loopRun_final (rs : List Result) (evs : List Ev) (he : ∀ e ∈ evs, e ≠ .interrupt) :
+    ∀ s, FinalInv rs s → FinalInv rs (evs.foldl loopStep s) := by
+  induction evs with
+  | nil => intro s h; exact h
+  | cons e t ih =>
+    intro s h
+    exact ih (fun e' he' => he e' (by simp [he'])) _ (aux_loopStep_final rs s e (he e (by simp)) h)
+
+/-- **The final report does not depend on the ticks**: for every interleaving of ticks and decodes (no
+interrupt) that runs to the end of the input, the last report written is the report of adding all
+records and closing once — the same for every tick placement; no domain restriction. -/
+theorem final_report_independent_of_ticks (rs : List Result) (evs : List Ev) (he : ∀ e ∈ evs, e ≠ .interrupt)
+    (hdone : (loopRun rs evs).done = true) :
+    (loopRun rs evs).m = close (addAll Metrics.init rs) ∧
+    (loopRun rs evs).out.getLast? = some (report (close (addAll Metrics.init rs))) := by
+  unfold loopRun at hdone ⊢
+  obtain ⟨ops, hin, _, h⟩ := aux_loopRun_final rs evs he (Loop.start rs)
+    ⟨[], by simp [Loop.start, adds], by intro _; rfl, by intro h; simp [Loop.start] at h⟩
+  obtain ⟨h1, h2, h3⟩ := h hdone
+  have hadds : adds ops = rs := by rw [h1] at hin; simpa using hin
+  have hm : (List.foldl loopStep (Loop.start rs) evs).m = close (addAll Metrics.init rs) := by
+    rw [h2, interleaved_close, hadds]
+  exact ⟨hm, by rw [h3, hm]⟩
+
+/-- … and in the domain it is the reference report of the whole input. -/
+theorem final_report_eq_ref (rs : List Result) (hd : Domain rs) (evs : List Ev) (he : ∀ e ∈ evs, e ≠ .interrupt)
+    (hdone : (loopRun rs evs).done = true) : (loopRun rs evs).out.getLast? = some (ref rs) := by
+  rw [(final_report_independent_of_ticks rs evs he hdone).2, metrics_eq_ref rs hd]
+
+/-- The loop does finish: after the records and one more `Decode` (io.EOF), with any ticks in between. -/
+example : (loopRun sample [.tick, .decode, .tick, .tick, .decode, .decode, .tick, .decode]).done = true ∧
+    (loopRun sample [.tick, .decode, .tick, .tick, .decode, .decode, .tick, .decode]).out.length = 5 := by decide +kernel
 
 end Vegeta.Props.C10
